@@ -126,11 +126,12 @@ func (e *Engine) langOfType(t types.Type, owner string, field string, vk map[fie
 func containsSlash(lang string) bool { return lang == langAny }
 
 func runC03(e *Engine, r *Report, tier string) {
-	r.Explanation = "C03, structural clauses. Decided for every implementer of types.ExternalClaim (enumerated from the type-checked program): R1 hash field coverage — every field of the claim's message other than the claimer (BridgerAddress) and the routing ChainName is an argument of the Sprintf that feeds the digest in ClaimHash(); R2 unambiguity of the pre-image — with each argument's language derived from its Go type and from the restricting validators its own ValidateBasic applies to that field (external address, bech32, hex; everything else is `any string`), at most one argument may be an unrestricted string (a single one is delimited uniquely by counting separators from both ends; two are not), and an empty separator is only followed by a fixed-shape address; R3 the attestation a vote is added to and stored under is keyed by (GetEventNonce(), ClaimHash()) of the same claim value that is tallied and handed to the handler. Not decided: collision resistance of the digest."
+	r.Explanation = "C03, structural clauses. Decided for every implementer of types.ExternalClaim (enumerated from the type-checked program): R1 hash field coverage — every field of the claim's message other than the claimer (BridgerAddress) and the routing ChainName is an argument of the Sprintf that feeds the digest in ClaimHash(); R2 unambiguity of the pre-image — with each argument's language derived from its Go type and from the restricting validators its own ValidateBasic applies to that field (external address, bech32, hex; everything else is `any string`), at most one argument may be an unrestricted string (a single one is delimited uniquely by counting separators from both ends; two are not), and an empty separator is only followed by a fixed-shape address; R3 the attestation a vote is added to and stored under is keyed by (GetEventNonce(), ClaimHash()) of the same claim value that is tallied and handed to the handler. R4 every attestation a store walk hands to its callback is a record allocated for that entry (a reused record with a re-sliced Votes buffer would make kept records alias each other: votes of one claim under another). Not decided: collision resistance of the digest."
 	impls := e.TypesImplementing(ModPath+"/x/crosschain/types", "ExternalClaim")
 	r.Rule("R1", "every executed field is hashed", len(impls), "implementers of types.ExternalClaim")
 	r.Rule("R2", "hash pre-image is an unambiguous concatenation", len(impls), "implementers of types.ExternalClaim")
 	r.Rule("R3", "vote, store and tally use (nonce, hash) of one claim value", 3, "")
+	r.Rule("R4", "every attestation handed out by a store walk is a freshly allocated record (votes cannot alias another claim's)", 2, "store walks with an attestation callback")
 	if len(impls) < 6 {
 		r.Fail("R1", "implementers", "", fmt.Sprintf("UNRESOLVED-ANCHOR: %d ExternalClaim implementers", len(impls)))
 	}
@@ -395,6 +396,68 @@ func runC03(e *Engine, r *Report, tier string) {
 				r.Check(okc, "R3", k+" tally", e.InstrPos(c), "the tallied/executed claim is the submitted claim object", "the claim handed to the tally is not the submitted claim")
 			}
 		})
+	}
+
+	// ---------- R4: every attestation read from the store is its own object ----------
+	// The votes of an attestation belong to its claim. A store walk that decodes every entry into one reused record (and
+	// re-slices its Votes buffer) hands out records that alias each other: whoever keeps them (genesis export copies them
+	// shallowly) sees the voters of a later entry under an earlier claim.
+	n4 := 0
+	for _, fn := range e.Funcs {
+		if isAuxPkg(fnPkgPath(fn)) || fn.Parent() != nil || !strings.Contains(fnPkgPath(fn), "x/crosschain/keeper") {
+			continue
+		}
+		var cbPar *ssa.Parameter
+		for _, p := range fn.Params {
+			if sig, ok := p.Type().Underlying().(*types.Signature); ok {
+				for i := 0; i < sig.Params().Len(); i++ {
+					if strings.HasSuffix(sig.Params().At(i).Type().String(), "types.Attestation") {
+						cbPar = p
+					}
+				}
+			}
+		}
+		if cbPar == nil {
+			continue
+		}
+		allCalls(fn, func(c ssa.CallInstruction) {
+			if c.Common().Value != ssa.Value(cbPar) {
+				return
+			}
+			_, loop := loopOf(c.Block())
+			if loop == nil {
+				return
+			}
+			for _, a := range c.Common().Args {
+				if !strings.HasSuffix(a.Type().String(), "types.Attestation") {
+					continue
+				}
+				n4++
+				ck := e.CanonFnKey(fn) + " record"
+				fresh := false
+				var origin ssa.Value
+				e.Slice(a, SliceOpts{MaxDepth: 4}, func(x ssa.Value) Verdict {
+					if al, ok := x.(*ssa.Alloc); ok {
+						origin = al
+						if loop[al.Block()] {
+							fresh = true
+						}
+						return Accept
+					}
+					return Continue
+				})
+				if fresh {
+					r.Ok("R4", ck, e.InstrPos(c), "a new record is allocated for every entry")
+				} else if origin != nil {
+					r.Fail("R4", ck, e.InstrPos(c), "the walk decodes every entry into one record allocated outside the loop and hands that same record to the callback each time: records kept by the callback (genesis export) alias each other, so an attestation ends up with the votes of another claim")
+				} else {
+					r.Undecided("R4", ck, e.InstrPos(c), "origin of the record handed to the callback not found")
+				}
+			}
+		})
+	}
+	if n4 == 0 {
+		r.Fail("R4", "attestation walks", "", "UNRESOLVED-ANCHOR: no store walk handing attestations to a callback")
 	}
 }
 
